@@ -205,7 +205,7 @@ def designers(tier):
 
   def cma(p, seed):
     from vizier._src.algorithms.designers import cmaes
-    return cmaes.CMAESDesigner(p)
+    return cmaes.CMAESDesigner(p, seed=seed)
   out['cmaes'] = cma
 
   def bocs_(p, seed):
